@@ -14,10 +14,15 @@ Theorem C08_isa_as_modelled : table_list = modelled_table.
 Proof. vm_compute. reflexivity. Qed.
 Print Assumptions C08_isa_as_modelled.
 
-(* full strength, every idx : Z (INT64_MIN, -1, len, 2^32+k are one case), every length, for every guarded pair *)
-Theorem C08_oob_traps : forall c e k len idx,
+Theorem C08_oob_traps_cfg : forall c e k len idx,
   guarded c e k = true -> legit k len idx = false -> access c e k len idx = ATrap.
 Proof. exact oob_traps_guarded. Qed.
+Print Assumptions C08_oob_traps_cfg.
+
+(* full strength for the current code: all three engines, all four access kinds, every length, every idx : Z
+   (INT64_MIN, -1, len, 2^32+k are one case).  Compiles only while the source contains the VM bounds tests and the two pop-empty repairs. *)
+Theorem C08_oob_traps : forall e k len idx, legit k len idx = false -> access cur e k len idx = ATrap.
+Proof. intros e k len idx. apply oob_traps_guarded. destruct e, k; reflexivity. Qed.
 Print Assumptions C08_oob_traps.
 
 (* native runtime and interpreter: get / set / remove are guarded in the pinned tree, whatever the repairs *)
@@ -28,12 +33,8 @@ Proof.
 Qed.
 Print Assumptions C08_oob_traps_native_interp.
 
-(* the current source: every unguarded (engine, kind) pair has an illegitimate access that does not trap *)
-Theorem C08_oob_traps_refuted : forall e k, guarded cur e k = false ->
-  exists len idx, legit k len idx = false /\ access cur e k len idx <> ATrap.
-Proof. exact (unguarded_refuted cur). Qed.
-Print Assumptions C08_oob_traps_refuted.
-
+(* necessity of each guard, for any combination of repairs (the unguarded forms carry computed witnesses: (3,5) yields a value,
+   2^32+1 reads element 1, -(2^32-2) writes element 2, pop of an empty array yields a value) *)
 Theorem C08_traps_iff_guarded : forall c e k,
   (forall len idx, legit k len idx = false -> access c e k len idx = ATrap) <-> guarded c e k = true.
 Proof.
@@ -43,23 +44,6 @@ Proof.
   - intros G len idx L. apply oob_traps_guarded; assumption.
 Qed.
 Print Assumptions C08_traps_iff_guarded.
-
-(* the named witnesses of the pinned VM: (3,5) yields a value; 2^32+1 reads element 1; -(2^32-2) WRITES element 2;
-   pop of an empty array yields a value on all three engines *)
-Theorem C08_vm_witnesses : forall c, fx_arr c = false ->
-  access c EVm AGet 3 5 = AVoid /\ access c EVm AGet 3 4294967297 = AElem 1 /\
-  access c EVm ASet 3 (-4294967294) = AElem 2 /\ access c EVm ASet 3 3 = ANoop /\
-  access c EVm ARemove 3 (-1) = ANoop /\ access c EVm APop 0 0 = AVoid.
-Proof.
-  intros c H. repeat split; [apply vm_get_yields_void | apply vm_get_wraps | apply vm_set_wraps | apply vm_set_noop
-                            | apply vm_remove_noop | apply vm_pop_void]; exact H.
-Qed.
-Print Assumptions C08_vm_witnesses.
-
-Theorem C08_pop_empty_witnesses : forall c,
-  (fx_npop c = false -> access c ENative APop 0 0 = AVoid) /\ (fx_ipop c = false -> access c EInterp APop 0 0 = AVoid).
-Proof. intros c; split; intros H; [apply native_pop_void | apply interp_pop_void]; exact H. Qed.
-Print Assumptions C08_pop_empty_witnesses.
 
 (* "never touches memory outside the object": whatever element an engine touches exists *)
 Theorem C08_access_in_object : forall c e k len idx i, access c e k len idx = AElem i -> (i < len)%N.
@@ -94,31 +78,31 @@ Proof. exact exec_instr_errfinal. Qed.
 Print Assumptions C08_every_error_is_final.
 
 (* repaired VM: OP_ARR_GET / SET / REMOVE / POP outside the array end in VM_ERR_OUT_OF_BOUNDS with the output unchanged *)
-Theorem C08_vm_arr_get_traps : forall c m, fx_arr c = true -> forall s fr frs ip n i l t els k idx,
+Theorem C08_vm_arr_get_traps : forall m s fr frs ip n i l t els k idx,
   hget s KArr l = Some (OArr t els) -> op i = 83%N -> st_stack s = VInt idx :: VRef KArr l :: k ->
   legit AGet (N.of_nat (length els)) idx = false ->
-  exists s', exec_instr c m s fr frs ip i n = SErr E_OOB s' /\ st_out s' = st_out s.
-Proof. intros. eapply arr_get_traps; eassumption. Qed.
+  exists s', exec_instr cur m s fr frs ip i n = SErr E_OOB s' /\ st_out s' = st_out s.
+Proof. intros. eapply (arr_get_traps cur); try eassumption; reflexivity. Qed.
 Print Assumptions C08_vm_arr_get_traps.
 
-Theorem C08_vm_arr_set_traps : forall c m, fx_arr c = true -> forall s fr frs ip n i l t els k idx v,
+Theorem C08_vm_arr_set_traps : forall m s fr frs ip n i l t els k idx v,
   hget s KArr l = Some (OArr t els) -> op i = 84%N -> st_stack s = v :: VInt idx :: VRef KArr l :: k ->
   legit ASet (N.of_nat (length els)) idx = false ->
-  exists s', exec_instr c m s fr frs ip i n = SErr E_OOB s' /\ st_out s' = st_out s.
-Proof. intros. eapply arr_set_traps; eassumption. Qed.
+  exists s', exec_instr cur m s fr frs ip i n = SErr E_OOB s' /\ st_out s' = st_out s.
+Proof. intros. eapply (arr_set_traps cur); try eassumption; reflexivity. Qed.
 Print Assumptions C08_vm_arr_set_traps.
 
-Theorem C08_vm_arr_remove_traps : forall c m, fx_arr c = true -> forall s fr frs ip n i l t els k idx,
+Theorem C08_vm_arr_remove_traps : forall m s fr frs ip n i l t els k idx,
   hget s KArr l = Some (OArr t els) -> op i = 87%N -> st_stack s = VInt idx :: VRef KArr l :: k ->
   legit ARemove (N.of_nat (length els)) idx = false ->
-  exists s', exec_instr c m s fr frs ip i n = SErr E_OOB s' /\ st_out s' = st_out s.
-Proof. intros. eapply arr_remove_traps; eassumption. Qed.
+  exists s', exec_instr cur m s fr frs ip i n = SErr E_OOB s' /\ st_out s' = st_out s.
+Proof. intros. eapply (arr_remove_traps cur); try eassumption; reflexivity. Qed.
 Print Assumptions C08_vm_arr_remove_traps.
 
-Theorem C08_vm_pop_empty_traps : forall c m s fr frs ip n i l t k, fx_arr c = true -> op i = 82%N ->
+Theorem C08_vm_pop_empty_traps : forall m s fr frs ip n i l t k, op i = 82%N ->
   st_stack s = VRef KArr l :: k -> hget s KArr l = Some (OArr t []) ->
-  exists s', exec_instr c m s fr frs ip i n = SErr E_OOB s' /\ st_out s' = st_out s.
-Proof. exact arr_pop_traps. Qed.
+  exists s', exec_instr cur m s fr frs ip i n = SErr E_OOB s' /\ st_out s' = st_out s.
+Proof. intros m s fr frs ip n i l t k. exact (arr_pop_traps cur m s fr frs ip n i l t k eq_refl). Qed.
 Print Assumptions C08_vm_pop_empty_traps.
 
 (* every cfg (pinned included): tuple / struct / union field beyond the count traps *)
@@ -139,20 +123,14 @@ Proof. exact union_field_traps. Qed.
 Print Assumptions C08_union_field_oob_traps.
 
 (* whole programs (module bytes through load + verify + run): let a = [1,2,3]; println (at a idx); return 0 *)
-Theorem C08_program_refuted : fx_arr cur = false ->
-  finished_with (pipeline cur (w_at 5) 100) 0 [118; 111; 105; 100; 10]%N = true /\        (* prints "void", returns 0 *)
-  finished_with (pipeline cur (w_at 4294967297) 100) 0 [50; 10]%N = true.                (* prints "2" *)
-Proof. intros H. split; [exact (w_at_continues cur H) | exact (w_at_wraps cur H)]. Qed.
-Print Assumptions C08_program_refuted.
-
-Theorem C08_program_traps : forall c, fx_arr c = true ->
-  trapped_with (pipeline c (w_at 5) 100) 6 [] = true /\ trapped_with (pipeline c (w_at 4294967297) 100) 6 [] = true /\
-  trapped_with (pipeline c (w_at (-1)) 100) 6 [] = true.
-Proof. exact w_at_traps. Qed.
+Theorem C08_program_traps :
+  trapped_with (pipeline cur (w_at 5) 100) 6 [] = true /\ trapped_with (pipeline cur (w_at 4294967297) 100) 6 [] = true /\
+  trapped_with (pipeline cur (w_at (-1)) 100) 6 [] = true.
+Proof. exact (w_at_traps cur eq_refl). Qed.
 Print Assumptions C08_program_traps.
 
 Example C08_nonvacuous :
-  guarded cfg_fixed EVm AGet = true /\ guarded cfg_pinned EVm AGet = false /\ guarded cfg_pinned ENative AGet = true /\
+  guarded cur EVm AGet = true /\ guarded cfg_pinned EVm AGet = false /\ guarded cfg_pinned ENative AGet = true /\
   legit AGet 3 2 = true /\ legit AGet 3 3 = false /\ legit APop 0 0 = false /\ access cfg_fixed EVm AGet 3 2 = AElem 2.
 Proof. vm_compute. repeat split; reflexivity. Qed.
 Print Assumptions C08_nonvacuous.
